@@ -87,8 +87,12 @@ func findSelectorExprViolation(
 	ctx *packageOnlyContext,
 	expr *ast.SelectorExpr,
 ) *PackageOnlyViolation {
-	// Get the type information
-	obj := ctx.pass.TypesInfo.ObjectOf(expr.Sel)
+	// Get the type information. The type name of an embedded field ("struct { pkg.T }") both
+	// defines the field and uses the type: the use is what matters here.
+	obj := ctx.pass.TypesInfo.Uses[expr.Sel]
+	if obj == nil {
+		obj = ctx.pass.TypesInfo.ObjectOf(expr.Sel)
+	}
 	if obj == nil {
 		return nil
 	}
